@@ -35,7 +35,8 @@ ASSUMPTIONS = [
 EXHAUSTIVE = {"quick": False, "thorough": False}
 FLOORS = {"quick": {"cases": 2000, "status:NO": 700, "status:BYE": 500, "status:OK": 500,
                     "sentinel-pairs": 1200, "random-cases": 3000,
-                    "slow-starttls-connects": 15, "logout-cases": 100},
+                    "slow-starttls-connects": 15, "logout-cases": 100,
+                    "replies-that-differ-from-the-previous-one-only-inside-a-literal": 150},
           "thorough": {"cases": 1500000, "status:NO": 500000, "status:BYE": 250000,
                        "status:OK": 250000, "sentinel-pairs": 500000, "random-cases": 1500000}}
 SHARD_TIMEOUT = {"quick": 600, "thorough": 3000}
@@ -222,8 +223,10 @@ def random_case(rng):
 def run_random(shard, res: Result):
     rng = random.Random(shard["rs"])
     sess = None
+    prev = None
     for i in range(shard["n"]):
         if sess is None or rng.random() < 0.2:
+            prev = None
             srv = ms.Server(users={b"user": b"pw"})
             seg = ms.Seg(rng=random.Random(rng.randrange(1 << 30))) if rng.random() < 0.5 \
                 else ms.Seg()
@@ -236,8 +239,19 @@ def run_random(shard, res: Result):
                 sess.sock.seconds_per_recv = rng.choice([0.5, 2.0, 4.0])
                 res.count("sessions-on-a-slow-link")
         res.count("random-cases")
-        if not run_case(random_case(rng), res, sess):
+        case = random_case(rng)
+        if prev is not None and sess is not None and rng.random() < 0.3:
+            # a reply that differs from the previous one on this connection only INSIDE its
+            # literal text: same status, same code, same announced length
+            op0, st0, cn0, code0, tn0, text0, how0 = prev
+            twin = text0[::-1] if text0[::-1] != text0 else bytes((b ^ 1) if b > 32 else b for b in text0)
+            if twin != text0:
+                case = (rng.choice(list(BOOL_OPS) + list(DATA_OPS)), st0, cn0, code0, tn0, twin, how0)
+                res.count("replies-that-differ-from-the-previous-one-only-inside-a-literal")
+        prev = case if (case[6] == "literal" and case[5]) else None
+        if not run_case(case, res, sess):
             sess = None
+            prev = None
 
 
 def run_multistep(res: Result):
